@@ -239,6 +239,8 @@ def r6_inherit(ctx, prog):
         # committing path knows which (sensitive, extractable) combinations of the source keys it is consistent with
         o = Outcomes(f, prog, cenv={pmech + '.mechanism': mval}, record_calls={'setAttribute', 'commitTransaction'})
         o.CAP = 48
+        o.QUIET = True
+        o.interesting = lambda e: short(e.get('callee')) != 'setAttribute' or (e.get('args') and tables.lit_name(e['args'][0]) in ('CKA_SENSITIVE', 'CKA_EXTRACTABLE'))
         o.track_facts = re.compile(r'^getBooleanValue\((%s),CKA_(SENSITIVE|EXTRACTABLE),' % '|'.join(keys))
         o.go()
         r.paths += len(o.outcomes)
